@@ -57,7 +57,7 @@ def plans():
         ps.append({'name': name, 'schema': name, 'bound': {'quick': b, 'thorough': c02.THOROUGH[name]},
                    'stages': c09.STAGES, 'state_cover': 1.0, 'budget': 2500, 'obs': obs,
                    'random': lambda schema, rnd, tier: c02.random_runs(schema, rnd, 3 if tier == 'quick' else 40, 100, 12)})
-    for name in ('valued', 'many_one_2key', 'subsuper', 'assoc_class', 'grid', 'mixed_case'):
+    for name in ('valued', 'many_one_2key', 'subsuper', 'assoc_class', 'grid', 'mixed_case', 'prefix_rels'):
         ps.append({'name': name + '_ids', 'schema': name, 'bound': 2, 'model': False, 'obs': obs, 'random': idclash_runs})
     # over-populated ends are only reachable by loading duplicate keys: the populations of C03 (TLC enumerates every
     # population of the row choices of each shape), each followed by the consistency observations
